@@ -8,7 +8,7 @@ for d in seeded/${1}*/; do
   id=$(basename "$d"); prop=${id%%-*}
   M=$(mktemp -d /tmp/sc-XXXXXX)
   rsync -a --exclude .git /repo/ "$M/repo/"
-  if ! (cd "$M/repo" && patch -p1 -s < "/verif/$d/patch.diff" >/dev/null 2>&1); then echo "$id PATCH-DOES-NOT-APPLY"; rm -rf "$M"; continue; fi
+  if ! (cd "$M/repo" && patch -p1 -s -F3 < "/verif/$d/patch.diff" >/dev/null 2>&1); then echo "$id PATCH-DOES-NOT-APPLY"; rm -rf "$M"; continue; fi
   if ! (cd "$M/repo" && go build ./... >/dev/null 2>&1); then echo "$id DOES-NOT-BUILD"; rm -rf "$M"; continue; fi
   out=$(VERIF_REPO="$M/repo" VERIF_OUT="$M/out" timeout 1500 ./check $prop quick 2>&1); rc=$?
   if [ $rc -eq 1 ] && echo "$out" | grep -q "^VIOLATION property=$prop"; then echo "$id caught ($(echo "$out" | tail -1 | grep -o 'violations=[0-9]*'))"; elif [ -f "$d/OUT-OF-REACH" ]; then echo "$id not caught, as recorded (out of reach: $(head -1 "$d/OUT-OF-REACH"))"; else echo "$id MISSED rc=$rc"; fi
